@@ -176,8 +176,8 @@ def sparse_getitem(sparse, idxs):
                 indices = new_indices
                 values = values[mask]
             else:
-                indices.resize_(indices.size(0) - 1, 1).zero_()
-                values.resize_(1).zero_()
+                indices = indices.new_zeros(indices.size(0) - 1, 1)
+                values = values.new_zeros(1)
 
             if not len(size):
                 return sum(values)
@@ -201,8 +201,8 @@ def sparse_getitem(sparse, idxs):
                 indices = new_indices
                 values = values[mask]
             else:
-                indices.resize_(indices.size(0), 1).zero_()
-                values.resize_(1).zero_()
+                indices = indices.new_zeros(indices.size(0), 1)
+                values = values.new_zeros(1)
 
         else:
             raise RuntimeError("Unknown index type")
